@@ -11,7 +11,7 @@ What is modelled
   `number_chars/2`.
 * `parse` is the grammar `phrase(json_chars(V), Cs)` accepts with `Cs` bound (McKeeman/RFC 8259
   form): a deterministic recursive-descent reading of the DCG. It is total (structural
-  recursion on explicit fuel; `Proofs/Json.lean` shows the fuel `length+1` is always enough, so
+  recursion on explicit fuel; `Proofs/Json.lean` shows the fuel `2·length+2` is always enough, so
   `none` always means "rejected", never "out of fuel").
 
 Numbers. The library decides the TYPE of a number syntactically: no fraction part and an
@@ -434,6 +434,6 @@ def parseWith (fuel : Nat) (s : List Char) : Option J :=
 
 /-- `phrase(json_chars(V), Cs)` with `Cs` bound: `some V` for the unique answer, `none` = no
     answer. -/
-def parse (s : List Char) : Option J := parseWith (s.length + 1) s
+def parse (s : List Char) : Option J := parseWith (2 * s.length + 2) s
 
 end Scryer.Json
